@@ -11,7 +11,7 @@ def expectedC01 : List (String × String) := [
   ("file:comparison.py", "c46d05a1308c92ce"),
   ("file:config.py", "142bde514c82c29d"),
   ("file:io/db.py", "29a8207a5d7ac50e"),
-  ("file:io/json.py", "9a87ae69473e052e"),
+  ("file:io/json.py", "5e1ef8b67f567a77"),
   ("file:io/sources.py", "7c2b0cb2619a6b10"),
   ("file:transform/hashjoins.py", "b948265980fadaea"),
   ("file:transform/sorts.py", "137f7e8a70e043fe"),
